@@ -19,7 +19,7 @@ from dsim import world as W
 from dsim.canon import digest, jdump
 
 PROPERTY = "C18"
-QUICK_RUNS = 6000
+QUICK_RUNS = 5000
 THOROUGH_RUNS = 150000
 QUICK_BUDGET = 90
 RULE = ("scenario = 2-3 collision worlds (same base URI, same $ref strings, same remote URLs, same regexes, same "
@@ -122,7 +122,7 @@ def generate(rng, tier="quick"):
     base = W.gen_world(rng, ndefs=rng.randint(2, 7), ref_rate=rng.choice([0.4, 0.55, 0.7]),
                        nested_id_rate=rng.choice([0.15, 0.3, 0.5]), unresolvable_rate=rng.choice([0.0, 0.0, 0.05]),
                        ninstances=rng.randint(2, 4), inst_depth=rng.choice([3, 3, 4]),
-                       regex_boost=rng.random() < 0.5)
+                       regex_boost=rng.random() < 0.7)
     worlds = [base]
     windex = [0]
     shared = []
